@@ -2,7 +2,9 @@ package main
 
 import (
 	"fmt"
+	"go/ast"
 	"go/token"
+	"go/types"
 	"sort"
 	"strings"
 )
@@ -167,6 +169,7 @@ func checkC01(c *Check) {
 	checkShortCircuit(c)
 	checkCountingLoop(c)
 	checkLadder(c)
+	checkContradictions(c)
 }
 
 // R1.5
@@ -448,4 +451,156 @@ func phiPredecessorProblems(in *Interp) []string {
 		}
 	}
 	return uniq(bad)
+}
+
+// R1.7: no test can never hold. Inside the branch taken when `X == c1` (X a variable or a field path of one, c1 a constant),
+// a test `X == c2` with another constant is dead unless X was assigned in between: one of the two tests is wrong. In the
+// statement parser such a test selects the operator (`Verschiebe … nach Rechts`): when it is dead, the other operator is
+// compiled without any diagnostic. (Contradiction rule in the sense of Engler et al.; decided on the syntax tree with
+// object identity, for the parser and the code generator.)
+func checkContradictions(c *Check) {
+	L := c.L
+	r := c.Rule("R1.7", "no equality test is contradicted by a dominating equality test on the same unmodified value", 0)
+	n := 0
+	L.ForEachFunc([]string{"src/parser", "src/compiler", "src/parser/typechecker", "src/parser/resolver"}, func(fi *FuncInfo) {
+		info := fi.Pkg.TypesInfo
+		type fact struct {
+			path string
+			root types.Object
+			val  string
+		}
+		// X == const conjuncts of a condition
+		var factsOf func(e ast.Expr) []fact
+		factsOf = func(e ast.Expr) []fact {
+			e = ast.Unparen(e)
+			be, ok := e.(*ast.BinaryExpr)
+			if !ok {
+				return nil
+			}
+			if be.Op == token.LAND {
+				return append(factsOf(be.X), factsOf(be.Y)...)
+			}
+			if be.Op != token.EQL {
+				return nil
+			}
+			x, k := be.X, be.Y
+			if tv := info.Types[x]; tv.Value != nil {
+				x, k = k, x
+			}
+			tv := info.Types[k]
+			if tv.Value == nil || info.Types[x].Value != nil {
+				return nil
+			}
+			// root variable of the path
+			root := x
+			for {
+				switch y := ast.Unparen(root).(type) {
+				case *ast.SelectorExpr:
+					root = y.X
+					continue
+				case *ast.StarExpr:
+					root = y.X
+					continue
+				}
+				break
+			}
+			id, ok := ast.Unparen(root).(*ast.Ident)
+			if !ok {
+				return nil
+			}
+			v, ok := info.Uses[id].(*types.Var)
+			if !ok || v.IsField() {
+				return nil
+			}
+			// no calls inside the path (a method call may yield another value each time)
+			hasCall := false
+			ast.Inspect(x, func(m ast.Node) bool {
+				if _, ok := m.(*ast.CallExpr); ok {
+					hasCall = true
+				}
+				return true
+			})
+			if hasCall {
+				return nil
+			}
+			return []fact{{normSrc(L, info, x) + "@" + v.Name(), v, tv.Value.ExactString()}}
+		}
+		assignedBetween := func(root types.Object, from, to token.Pos, scope ast.Node) bool {
+			found := false
+			ast.Inspect(scope, func(m ast.Node) bool {
+				if m == nil || found {
+					return false
+				}
+				if m.Pos() > to || m.End() < from {
+					return true
+				}
+				switch x := m.(type) {
+				case *ast.AssignStmt:
+					if x.Pos() >= from && x.Pos() < to {
+						for _, l := range x.Lhs {
+							rl := l
+							for {
+								switch y := ast.Unparen(rl).(type) {
+								case *ast.SelectorExpr:
+									rl = y.X
+									continue
+								case *ast.StarExpr:
+									rl = y.X
+									continue
+								case *ast.IndexExpr:
+									rl = y.X
+									continue
+								}
+								break
+							}
+							if id, ok := ast.Unparen(rl).(*ast.Ident); ok && (info.Uses[id] == root || info.Defs[id] == root) {
+								found = true
+							}
+						}
+					}
+				case *ast.IncDecStmt:
+					if id, ok := ast.Unparen(x.X).(*ast.Ident); ok && info.Uses[id] == root && x.Pos() >= from && x.Pos() < to {
+						found = true
+					}
+				case *ast.UnaryExpr:
+					if x.Op == token.AND && x.Pos() >= from && x.Pos() < to {
+						if id, ok := ast.Unparen(x.X).(*ast.Ident); ok && info.Uses[id] == root {
+							found = true
+						}
+					}
+				}
+				return true
+			})
+			return found
+		}
+		ast.Inspect(fi.Decl.Body, func(nd ast.Node) bool {
+			outer, ok := nd.(*ast.IfStmt)
+			if !ok {
+				return true
+			}
+			ofacts := factsOf(outer.Cond)
+			if len(ofacts) == 0 {
+				return true
+			}
+			ast.Inspect(outer.Body, func(m ast.Node) bool {
+				inner, ok := m.(*ast.IfStmt)
+				if !ok {
+					return true
+				}
+				for _, f2 := range factsOf(inner.Cond) {
+					for _, f1 := range ofacts {
+						if f1.path == f2.path && f1.root == f2.root && f1.val != f2.val && !assignedBetween(f1.root, outer.Body.Pos(), inner.Pos(), outer.Body) {
+							n++
+							r.Bad(L.QName(fi.Obj)+"|"+strings.SplitN(f1.path, "@", 2)[0]+" == "+f2.val+" under == "+f1.val, inner.Cond.Pos(), "this test can never hold: it lies in the branch where the same value equals "+f1.val+" and the value is not assigned in between - the branch it guards is dead, so whatever it selects (an operator, a node kind) is never chosen")
+						}
+					}
+				}
+				return true
+			})
+			return true
+		})
+	})
+	if n == 0 {
+		r.OK("parser and generator|contradicted tests", token.NoPos, "no equality test lies under a contradicting one on an unmodified value")
+	}
 }
